@@ -112,15 +112,19 @@ fn check_combo(c: &Combo) -> Result<(), String> {
         return Err("size() differs".into());
     }
     // CRC field: enforced under AE-1, ignored under AE-2
+    let true_crc = crate::refzip::crypto::crc32(&plain);
+    // one wrong value per case: a flipped byte, or a special value (0, all ones, 1, complement, a signature)
+    let wrong_vals = [true_crc ^ 0x5a, 0, 0xFFFF_FFFF, 1, !true_crc, 0x0403_4b50, true_crc ^ 0x8000_0000];
+    let wrong = wrong_vals[(c.pos as usize + c.bufsel as usize) % wrong_vals.len()];
     let mut bad = b.bytes.clone();
     for fld in b.fields.iter().filter(|f| f.name == "c_crc" && f.entry == Some(k)) {
-        bad[fld.off] ^= 0x5a;
+        bad[fld.off..fld.off + 4].copy_from_slice(&wrong.to_le_bytes());
     }
-    if !plain.is_empty() || true {
+    if wrong != true_crc || c.ae2 {
         match open_read(&bad, k, &c.password, bufs)? {
             Out::Data(d) => {
                 if !c.ae2 {
-                    return Err("AE-1 entry with a wrong CRC field was read to the end without error".into());
+                    return Err(format!("AE-1 entry whose CRC field holds {wrong:#010x} instead of {true_crc:#010x} was read to the end without error"));
                 }
                 if d != plain {
                     return Err("AE-2 entry with a modified CRC field returned different data".into());
